@@ -293,3 +293,104 @@ def c13_duplicated(method):
 
     unit.__name__ = f"c13_duplicated_{method.lower()}"
     return unit
+
+
+def c13_duplicated_hinit(tier="quick", seed=0):
+    """C13's duplication clause for the automatic initial step: hinit (methods/mod.rs) executed symbolically (exact arithmetic)
+    on a scalar problem and on two identical copies of it must return the same step."""
+    t0 = time.time()
+    q = TB.Q()
+    failed = []
+    res = {}
+    for n in (1, 2):
+        dom = D.Exact()
+        rec = M.Recorder()
+        hooks = M.make_hooks(dom, rec, n, ode_out=lambda j, i, t, args: sp.Symbol(f"F{j}", real=True))
+        it = Interp(dom, M.method_items("DOPRI5"), hooks)
+        f = M.OdeModel(dom, rec, n)
+        y = RVec([sp.Symbol("y", real=True)] * n)
+        f0 = RVec([sp.Symbol("f0", real=True)] * n)
+        f1 = RVec([sp.Integer(0)] * n)
+        y1 = RVec([sp.Integer(0)] * n)
+        at, rt = M.tol_scalar(sp.Symbol("atol", positive=True)), M.tol_scalar(sp.Symbol("rtol", positive=True))
+        outs = []
+
+        def run(preset):
+            it2 = Interp(D.Exact(), M.method_items("DOPRI5"), M.make_hooks(D.Exact(), M.Recorder(), n, ode_out=lambda j, i, t, args: sp.Symbol("F1", real=True)))
+            it2.preset = preset
+            d2 = it2.d
+            r = it2.call_fn("hinit", [M.OdeModel(d2, M.Recorder(), n), sp.Symbol("x", real=True), RVec([sp.Symbol("y", real=True)] * n), sp.Integer(1),
+                                      RVec([sp.Symbol("f0", real=True)] * n), RVec([sp.Integer(0)] * n), RVec([sp.Integer(0)] * n), 5,
+                                      sp.Symbol("hmax", positive=True), M.tol_scalar(sp.Symbol("atol", positive=True)), M.tol_scalar(sp.Symbol("rtol", positive=True))])
+            return it2.trail, (r, list(d2.pc))
+
+        for dec, trail, (r, pc) in explore(run, max_paths=64):
+            outs.append((tuple(dec), r, pc))
+        res[n] = outs
+    # compare path by path (same decision sequence = same branch of hinit): a numeric witness where the two differ
+    import random
+    rnd = random.Random(1)
+    witness = None
+    pairs = 0
+    for dec1, r1, pc1 in res[1]:
+        for dec2, r2, pc2 in res[2]:
+            if dec1 != dec2:
+                continue
+            pairs += 1
+            q.n += 1
+            q.quantified += 1
+            if sp.simplify(r1 - r2) == 0:
+                continue
+            # z3: can the two results differ on this branch?  (powf applications become symbols: equal arguments -> same symbol)
+            pw = {}
+
+            def unpow(e):
+                return e.replace(lambda t: getattr(t, "func", None) is not None and str(t.func) == "powf", lambda t: pw.setdefault(t, sp.Symbol(f"powf_{len(pw)}", positive=True)))
+            symmap = {}
+            try:
+                cons = [TB.to_z3(unpow(r1) - unpow(r2), symmap) != 0]
+                for c, v in pc1 + pc2:
+                    if isinstance(c, sp.core.relational.Relational):
+                        rel = {sp.LessThan: lambda a, b: a <= b, sp.StrictLessThan: lambda a, b: a < b, sp.GreaterThan: lambda a, b: a >= b,
+                               sp.StrictGreaterThan: lambda a, b: a > b, sp.Equality: lambda a, b: a == b, sp.Unequality: lambda a, b: a != b}[type(c)]
+                        zc = rel(TB.to_z3(unpow(c.lhs), symmap), TB.to_z3(unpow(c.rhs), symmap))
+                        cons.append(zc if v else z3.Not(zc))
+                pos = [symmap[k_] > 0 for k_ in symmap if isinstance(k_, sp.Symbol) and k_.is_positive]
+                okz, _ = q.unsat(pos + list(symmap.get("_side", [])) + cons, "hinit(1 copy) == hinit(2 copies) on a common branch", True,
+                                 sample={"forall": "y, f0, f(x+h), tolerances, hmax", "obligation": "h(one copy) == h(two copies)"}, timeout_ms=30000)
+                if okz is True:
+                    continue
+            except Exception:
+                pass
+            # the solver found (or could not exclude) a difference: concretise it
+            for _ in range(200):
+                vals = {sp.Symbol("y", real=True): rnd.choice([0.5, 1.0, 2.0, -1.5]), sp.Symbol("f0", real=True): rnd.choice([0.3, -1.0, 2.5]),
+                        sp.Symbol("F1", real=True): rnd.choice([0.1, -0.7, 1.3, 3.0]), sp.Symbol("x", real=True): 0.0, sp.Symbol("hmax", positive=True): 10.0,
+                        sp.Symbol("atol", positive=True): rnd.choice([1e-6, 1e-9]), sp.Symbol("rtol", positive=True): rnd.choice([1e-3, 1e-6])}
+                sub = lambda e: e.subs(vals).replace(sp.Function("powf"), lambda a, b: sp.Pow(a, b))
+                try:
+                    ok = all(bool(sub(c)) == v for c, v in pc1 + pc2)
+                    if not ok:
+                        continue
+                    a, b = float(sub(r1)), float(sub(r2))
+                except Exception:
+                    continue
+                if abs(a - b) > 1e-9 * max(abs(a), abs(b)):
+                    witness = (vals, a, b)
+                    break
+            if witness:
+                break
+        if witness:
+            break
+    if pairs == 0:
+        raise Unsupported("hinit: no common path between n = 1 and n = 2")
+    rep = (None, "", "")
+    if witness:
+        vals, a, b = witness
+        failed.append("hinit: the automatic initial step of two identical copies differs from that of one copy (its norms are sums over the components, not RMS norms)")
+        from . import replay
+        rep = replay.dup_hinit_replay()
+        rep = (rep[0], rep[1], f"symbolic: h(1 copy) = {a!r}, h(2 copies) = {b!r} at {dict((str(k), v) for k, v in vals.items())}\n" + rep[2])
+    return _result("c13_duplicated_hinit", q, t0, failed,
+                   {"functions": ["methods::hinit (all paths), n = 1 and n = 2 identical copies"], "bounds": "exact arithmetic; path-wise comparison of the returned step; witness search on inequivalent paths"},
+                   replayed=rep[0], replay_src=rep[1], replay_log=rep[2])
